@@ -17,7 +17,13 @@ CLAIMS["C10"] = dict(
          "earlier context, N nested trace::Scope} x {Detach(token) with the token kept alive, destruction} x unwind plan {newest first; the token of attach "
          "1, N/4, N/2 or N-1 out of order and then newest first (stale tokens included); pop newest-first down to depth N/4+1, N/4, N/4-1, 1 or 0, attach "
          "again up to N, unwind}: GetCurrent(), the visible values, GetCurrentSpan() and Detach's return value are compared with the model after EVERY "
-         "attach and EVERY detach, and no frame may remain at the end; states are counted on the real Stack (size_, capacity_, frames).",
+         "attach and EVERY detach, and no frame may remain at the end; states are counted on the real Stack (size_, capacity_, frames). After every operation of (b), (d), (e) "
+         "RuntimeContext::SetValue(key,value) without a context must derive from the current context (its values and active span) and leave it current. (e) Special frames, depth 5 / 7: "
+         "Attach of a context whose active-span key holds an int64 (GetCurrentSpan must be invalid although the context below has a span), Scope made by Tracer::WithActiveSpan, Scope over a "
+         "null span pointer, with token / scope destruction in any order, same model and oracle as (b). (f) Custom storage, depth 5 / 7: with a harness RuntimeContextStorage installed "
+         "(not a stack: Detach removes one frame only) every RuntimeContext::Attach / Detach, token and Scope destruction is exactly one call on it with the same context / token, results are "
+         "handed back unchanged, GetCurrent / GetValue / SetValue / GetCurrentSpan answer from its current context, the default thread-local stack stays empty, and the default storage works "
+         "again after it is re-installed. (c) also: a token of the main thread destroyed on another thread changes neither stack.",
     note=SEQ_NOTE + " Tokens with the same context are interchangeable (a Token holds only its const Context), so Detach / ~Token choose an identity, not a "
          "token index (symmetry reduction). Don't-care: the return value of Detach for an empty-context token when no empty frame is attached; HasKey "
-         "for a key bound to monostate (not generated). Interleaved multi-thread use is explored by the interleaving-engine harness registered for the same property (conc_c10); part (c) here is sequential.")
+         "for a key bound to monostate (not generated); what GetCurrentSpan returns while a Scope over a null span is the top frame; for a custom storage everything except delegation. Interleaved multi-thread use is explored by the interleaving-engine harness registered for the same property (conc_c10); part (c) here is sequential.")
